@@ -605,6 +605,8 @@ class CallMixin:
                 ast.copy_location(fake, a0)
                 return self.ev(fake, st)
             if name == "list":
+                if isinstance(v, (DictItems, DictValues)):
+                    return [(st, v)]           # a snapshot of an immutable symbolic dict value is the value itself
                 if isinstance(v, Val) and isinstance(v.sort, ListSort):
                     return [(st, v)]
                 if isinstance(v, Val) and isinstance(v.sort, SetSort):
@@ -883,6 +885,34 @@ class CallMixin:
                         v = opt_some(v)
                         d = opt_none(v.sort.inner)
                 return [(st, self.ite(has, v, d, node))]
+            if name in ("pop", "clear"):
+                tgt = self.recv_lvalue(node)
+                cur = self.load_lvalue(tgt, st)
+                new = fresh(cur.sort, "dict")
+                self.assume_dict_wf(st, new)
+                kz = cur.sort.key.z
+                kk = z3.Const(fresh_name("pk"), kz)
+                if name == "clear":
+                    st.assume(new.t[0] == 0)
+                    st.assume(z3.ForAll([kk], z3.Not(z3.Select(new.t[2], kk))))
+                    self.store_lvalue(tgt, st, new)
+                    return [(st, VNONE)]
+                k = self.coerce(args[0], cur.sort.key, node)
+                had = z3.Select(cur.t[2], k.z)
+                st.assume(z3.ForAll([kk], z3.Select(new.t[2], kk) == z3.And(z3.Select(cur.t[2], kk), kk != k.z),
+                          patterns=[z3.Select(new.t[2], kk), z3.Select(cur.t[2], kk)]))
+                st.assume(new.t[0] == z3.If(had, cur.t[0] - 1, cur.t[0]))
+                for na, ca in zip(new.t[3:], cur.t[3:]):
+                    st.assume(z3.ForAll([kk], z3.Implies(z3.Select(new.t[2], kk), z3.Select(na, kk) == z3.Select(ca, kk)),
+                              patterns=[z3.Select(na, kk)]))
+                val = dict_get(cur, k)
+                self.store_lvalue(tgt, st, new)
+                if len(args) < 2:
+                    return self.guarded(node, st, had, "KeyError", lambda s_: val, f"pop@{node.lineno}")
+                d = args[1]
+                if isinstance(d, Val) and isinstance(d.sort, NoneSort):
+                    d = self.coerce(d, val.sort, node) if isinstance(val.sort, (RefSort, OptSort)) else fresh(val.sort, "popdefault")
+                return [(st, self.ite(had, val, d, node))]
             if name == "values":
                 return [(st, DictValues(recv))]
             if name == "items":
